@@ -44,7 +44,7 @@ def mixed_tree(r, variant):
         args = ["-w", "3", "--block-size", "64KB", "-r", "src", "dst"]
     elif variant == 2:
         spec = [F("f", 150000, 9, mode=0o604, mtime_ns=1_000_000_000_000_000_777)]
-        pre = [F("g", 99, 10)]
+        pre = [F("g", 99, 10), F("g.~3~", 7, 11)]
         args = ["-w", "2", "--block-size", "64KB", "--backup", "auto", "f", "g"]
     elif variant == 5:
         # dereference: links to a file and to a directory (canonicalize / follow-links paths)
@@ -97,9 +97,162 @@ def gen_cases(tier, seed):
         for driver in ("parfile", "parblock"):
             yield {"spec": spec, "pre": pre, "args": ["--driver", driver] + args, "driver": driver, "variant": v, "fs": "ext4",
                    "pairs": 0 if tier == "quick" else 150, "sseed": r.randrange(1 << 30), "tier": tier}
+    yield from natural_cases(r, tier)
+
+
+NAT_SRC = [{"p": "src", "k": "d"}, F("src/a", 100, 201, mode=0o644), F("src/big", 200000, 202, mode=0o600), {"p": "src/e1", "k": "d"},
+           {"p": "src/sub", "k": "d"}, F("src/sub/x", 5000, 203), {"p": "src/sub/e2", "k": "d"}, {"p": "src/sub/l", "k": "l", "target": "x"},
+           {"p": "src/sub/deep", "k": "d"}, {"p": "src/sub/deep/e3", "k": "d"}, F("src/sub/deep/y", 70000, 204), {"p": "src/sub/deep/l2", "k": "l", "target": "../x"}]
+NAT_DIRS = ["src/e1", "src/sub/e2", "src/sub/deep/e3", "src/sub", "src/sub/deep"]
+NAT_FILES = ["src/a", "src/big", "src/sub/x", "src/sub/deep/y"]
+NAT_LINKS = ["src/sub/l", "src/sub/deep/l2"]
+
+
+def natural_cases(r, tier):
+    """Steps that fail without any injection: something of the wrong kind, an immutable entry, or missing privilege is in the way."""
+    for i in range(90 if tier == "quick" else 2400):
+        driver = ["parfile", "parblock"][i % 2]
+        fam = ["kinds", "kinds", "immutable", "unpriv"][(i // 2) % 4]
+        pre = [{"p": "dst", "k": "d"}, {"p": "dst/src", "k": "d"}]
+        obst, imm, prep = [], [], []
+
+        def need_parents(path):
+            par = os.path.dirname(path)
+            chain = []
+            while par and par != "dst/src":
+                chain.append(par)
+                par = os.path.dirname(par)
+            for d in reversed(chain):
+                if not any(e["p"] == d for e in pre):
+                    pre.append({"p": d, "k": "d"})
+        if fam == "kinds":
+            for _ in range(r.choice([1, 1, 2])):
+                cls = r.choice(["dir", "dir", "file", "link"])
+                sp = r.choice({"dir": NAT_DIRS, "file": NAT_FILES, "link": NAT_LINKS}[cls])
+                dp = "dst/" + sp
+                if any(e["p"] == dp or e["p"].startswith(dp + "/") or dp.startswith(e["p"] + "/") and e["k"] != "d" for e in pre):
+                    continue
+                need_parents(dp)
+                if any(e["p"] == dp for e in pre):
+                    continue
+                what = r.choice({"dir": ["file", "dangling-link", "fifo", "link-to-file", "sock"], "file": ["dir", "dir-nonempty"], "link": ["dir", "file", "fifo"]}[cls])
+                if what == "file":
+                    pre.append(F(dp, 12, 300 + i))
+                elif what == "dangling-link":
+                    pre.append({"p": dp, "k": "l", "target": "no/where"})
+                elif what == "link-to-file":
+                    pre += [F("dst/keep-target", 9, 301)] if not any(e["p"] == "dst/keep-target" for e in pre) else []
+                    pre.append({"p": dp, "k": "l", "target": "@ROOT@/dst/keep-target"})
+                elif what in ("fifo", "sock"):
+                    pre.append({"p": dp, "k": what})
+                elif what == "dir":
+                    pre.append({"p": dp, "k": "d"})
+                else:
+                    pre += [{"p": dp, "k": "d"}, F(dp + "/inner", 3, 302)]
+                obst.append("%s-where-%s" % (what, cls))
+        elif fam == "immutable":
+            what = r.choice(["file", "file", "dir-needs-children", "backup-source"])
+            if what == "file":
+                t = r.choice(NAT_FILES)
+                need_parents("dst/" + t)
+                pre.append(F("dst/" + t, r.choice([0, 50, 300000]), 310))
+                imm.append("dst/" + t)
+            elif what == "dir-needs-children":
+                t = r.choice(["src/sub", "src/sub/deep"])
+                need_parents("dst/" + t + "/z")
+                imm.append("dst/" + t)
+            else:
+                pre += [F("dst/src/a", 40, 311)]
+                imm.append("dst/src/a")
+            obst.append("immutable-" + what)
+        else:
+            what = r.choice(["unreadable-file", "unlistable-dir", "readonly-dest-dir", "unwritable-dest-file", "unsearchable-dest-dir"])
+            if what == "unreadable-file":
+                prep.append(["chmod", r.choice(NAT_FILES), 0])
+            elif what == "unlistable-dir":
+                prep.append(["chmod", r.choice(["src/sub", "src/sub/deep"]), r.choice([0, 0o300])])
+            elif what == "readonly-dest-dir":
+                t = r.choice(["src/sub", "src/sub/deep"])
+                need_parents("dst/" + t + "/z")
+                prep.append(["rootown", "dst/" + t, 0o555])
+            elif what == "unsearchable-dest-dir":
+                t = r.choice(["src/sub", "src/sub/deep"])
+                need_parents("dst/" + t + "/z")
+                prep.append(["rootown", "dst/" + t, 0o600])
+            else:
+                t = r.choice(NAT_FILES)
+                need_parents("dst/" + t)
+                pre.append(F("dst/" + t, 77, 320))
+                prep.append(["rootown", "dst/" + t, 0o444])
+            obst.append(what)
+        if not obst:
+            continue
+        args = ["--driver", driver, "-w", str(r.choice([0, 1, 2, 4])), "--block-size", "64KB"]
+        args += r.choice([[], [], ["--fsync"], ["--no-perms"], ["--no-timestamps"], ["--reflink", "never"], ["--no-progress"], ["-v"], ["--gitignore"]])
+        if fam == "immutable" and obst[0] == "immutable-backup-source":
+            args += ["--backup", "numbered"]
+        yield {"natural": fam, "obstacles": sorted(obst), "spec": NAT_SRC, "pre": pre, "immutable": imm, "prep": prep, "driver": driver, "variant": "natural", "fs": "ext4",
+               "args": args + ["-r", "src", "dst"]}
+
+
+def run_natural(case):
+    res = {"evals": [], "viol": [], "inconc": [], "counters": {}}
+    with core.Sandbox("ext4", "c04n") as sb:
+        root = sb.root
+        tree.materialize(root, case["spec"])
+        tree.materialize(root, [dict(e, target=e["target"].replace("@ROOT@", root)) if "target" in e else e for e in case["pre"]])
+        argv = core.xcp_argv(case["args"])
+        try:
+            if case["natural"] == "unpriv":
+                for dp, dn, fn in os.walk(b(root)):
+                    for n in dn + fn + [b"."]:
+                        os.lchown(os.path.join(dp, n), 65534, 65534)
+                for op, path, mode in case["prep"]:
+                    q = os.path.join(b(root), b(path))
+                    if op == "rootown":
+                        os.chown(q, 0, 0)
+                    os.chmod(q, mode)
+                argv = ["setpriv", "--reuid", "65534", "--regid", "65534", "--clear-groups"] + argv
+            for path in case["immutable"]:
+                if not core.set_immutable(os.path.join(b(root), b(path)), True):
+                    res["inconc"].append("immutable-flag-unavailable")
+                    return res
+            pre = tree.snapshot(root)
+            run = core.run_plain(argv, root)
+            post = tree.snapshot(root)
+        finally:
+            for path in case["immutable"]:
+                core.set_immutable(os.path.join(b(root), b(path)), False)
+        if run.verdict != "exited":
+            res["inconc"].append("run-" + run.verdict)
+            return res
+        if "setpriv" in run.stderr and "xcp" not in run.stderr:
+            res["inconc"].append("setpriv-failed")
+            return res
+        outcome = "exit0" if run.exit0 else "nonzero"
+        if run.exit0:
+            mapping, _ = model.map_sources(pre, root, ["src"], "dst")
+            bad = model.check_mirror(pre, post, mapping)
+            mapped = {m["dst"] for m in mapping}
+            for p_, a in sorted(pre.items()):
+                if p_ in mapped or a["k"] == "d" or not p_ or p_.startswith("src"):
+                    continue
+                c = post.get(p_)
+                if c is None or any(a.get(f) != c.get(f) for f in ("k", "size", "sha", "link")):
+                    bad.append(("bystander-changed", "%r (%s, nothing maps onto it) was %s" % (p_, a["k"], "removed" if c is None else "replaced or modified")))
+            for frag, msg in bad[:3]:
+                res["viol"].append({"sig": "%s:natural:%s:%s:%s" % (case["driver"], case["natural"], "+".join(case["obstacles"]), frag),
+                                    "what": "exit 0 although a step had to fail (%s: %s): %s; args=%s" % (case["natural"], ", ".join(case["obstacles"]), msg, " ".join(case["args"]))})
+        res["counters"]["natural-" + outcome] = 1
+        res["counters"]["natural:" + case["natural"]] = 1
+        res["evals"].append({"key": [case["driver"], "natural", case["natural"], case["obstacles"], outcome],
+                             "sample": {"args": case["args"], "obstacles": case["obstacles"], "exit": run.status, "first_error": ([l for l in run.stderr.splitlines() if "rror" in l or "denied" in l] or [""])[0].replace(root, "")[-200:]}})
+    return res
 
 
 def expand_case(case):
+    if case.get("natural"):
+        return [case]
     with core.Sandbox(case["fs"], "c04") as sb:
         root = sb.root
         tree.materialize(root, case["spec"])
@@ -178,10 +331,20 @@ def judge(case, root, pre, post, run, res, prop_tag=""):
                 mode = case["args"][case["args"].index("--backup") + 1]
                 if (mode == "numbered" or (mode == "auto" and had_backup)) and not names:
                     bad.append(("backup-lost", "old content of %s is in no backup file" % m["dst"]))
+    # entries nothing maps onto (earlier backups among them) are part of a correct destination: they must be as before
+    mapped = {m["dst"] for m in mapping}
+    for p_, a in sorted(pre.items()):
+        if p_ in mapped or a["k"] == "d" or not p_:
+            continue
+        c = post.get(p_)
+        if c is None or any(a.get(f) != c.get(f) for f in ("k", "size", "sha", "link")):
+            bad.append(("bystander-changed", "%r (%s, nothing maps onto it) was %s" % (p_, a["k"], "removed" if c is None else "replaced or modified")))
     return bad
 
 
 def run_case(case):
+    if case.get("natural"):
+        return run_natural(case)
     res = {"evals": [], "viol": [], "inconc": [], "counters": {}}
     with core.Sandbox(case["fs"], "c04") as sb:
         root = sb.root
